@@ -5,6 +5,7 @@ from xitorch._core.pure_function import get_pure_function, make_sibling
 from xitorch._utils.misc import set_default_option, TensorNonTensorSeparator, \
     TensorPacker, get_method
 from xitorch._utils.assertfuncs import assert_fcn_params
+from xitorch._utils.tensor import convert_none_grads_to_zeros
 from xitorch._impls.integrate.mcsamples.mcmc import mh, mhcustom, dummy1d
 from xitorch._docstr.api_docstr import get_methods_docstr
 
@@ -205,7 +206,9 @@ class _MCQuad(torch.autograd.Function):
                 dLdthetaf = torch.autograd.grad(fout, ftensor_params,
                                                 grad_outputs=grad_epf,
                                                 retain_graph=True,
-                                                create_graph=local_grad_enabled)
+                                                create_graph=local_grad_enabled,
+                                                allow_unused=True)
+                dLdthetaf = convert_none_grads_to_zeros(dLdthetaf, ftensor_params)
             # derivative of pparams
             dLdthetap = []
             if len(ptensor_params) > 0:
@@ -213,7 +216,9 @@ class _MCQuad(torch.autograd.Function):
                 dLdthetap = torch.autograd.grad(pout, ptensor_params,
                                                 grad_outputs=dLdef.reshape(pout.shape),
                                                 retain_graph=True,
-                                                create_graph=local_grad_enabled)
+                                                create_graph=local_grad_enabled,
+                                                allow_unused=True)
+                dLdthetap = convert_none_grads_to_zeros(dLdthetap, ptensor_params)
             # combine the states needed for backward
             outs = (
                 *dLdthetaf,
